@@ -87,7 +87,7 @@ def scenario(ctx, p):
         return ns.Trough("L", vr, cols, min_volume=0, max_volume=100, initial_volumes=5)
     # names
     case = ctx.choose("case", ["plate-ok", "plate-empty-named", "plate-unknown-well", "trough-ok", "trough-empty-named", "trough-short-names", "trough-short-volumes",
-                               "trough-long-volumes", "plate-none-name"])
+                               "trough-long-volumes", "plate-none-name", "legacy-trough-virtual-row-name", "legacy-trough-ok"])
     c["case"] = case
     if case == "plate-ok":
         return ns.Labware("L", 2, 2, min_volume=0, max_volume=100, initial_volumes=[[5, 0], [0, 7]], component_names={"A01": "water", "B02": None})
@@ -103,6 +103,13 @@ def scenario(ctx, p):
         return ns.Trough("L", 3, 2, min_volume=0, max_volume=100, initial_volumes=[5, 0], column_names=["water", "acid"])
     if case == "trough-short-names":
         return ns.Trough("L", 3, 2, min_volume=0, max_volume=100, initial_volumes=[5, 5], column_names=["water"])
+    if case in ("legacy-trough-virtual-row-name", "legacy-trough-ok"):
+        import warnings
+        with warnings.catch_warnings():
+            warnings.simplefilter("ignore")
+            # a trough declared through the generic constructor: only the real row (A) can be named
+            names = {"B01": "water"} if case == "legacy-trough-virtual-row-name" else {"A01": "water"}
+            return ns.Labware("L", 1, 2, min_volume=0, max_volume=100, initial_volumes=[[5, 5]], virtual_rows=3, component_names=names)
     if case == "trough-short-volumes":
         return ns.Trough("L", 3, 2, min_volume=0, max_volume=100, initial_volumes=[5])
     return ns.Trough("L", 3, 2, min_volume=0, max_volume=100, initial_volumes=[5, 5, 5])
@@ -162,7 +169,7 @@ def judge(ctx, p, outcome):
         return
     # names
     case = c["case"]
-    should_ok = case in ("plate-ok", "trough-ok", "plate-none-name")
+    should_ok = case in ("plate-ok", "trough-ok", "plate-none-name", "legacy-trough-ok")
     if kind == "exc":
         ctx.reach("names:rejected")
         if should_ok:
@@ -177,7 +184,7 @@ def judge(ctx, p, outcome):
     lab = val
     comp = {k: v.tolist() for k, v in lab.composition.items()}
     want = {"plate-ok": {"water": [[1, 0], [0, 0]], "L.B02": [[0, 0], [0, 1]]}, "plate-none-name": {"L.A01": [[1, 0], [0, 0]], "L.B02": [[0, 0], [0, 1]]},
-            "trough-ok": {"water": [[1, 0]]}}[case]
+            "trough-ok": {"water": [[1, 0]]}, "legacy-trough-ok": {"water": [[1, 0]], "L": [[0, 1]]}}[case]
     if comp != want:
         ctx.violate(f"C20: initial composition {comp} instead of {want} ({case})")
 
